@@ -117,6 +117,7 @@ def run_history(ctx, cssutils, rng, use_global=False, ops_in=None, raising_in=No
     raising = raising_in if raising_in is not None else (rng.random() < 0.5)
     cssutils.log.raiseExceptions = raising  # (a validation function that raises is reported through the log: raised or only logged)
     case = {'kind': 'history', 'ops': ops, 'global': use_global, 'raising': raising}
+    live = None
     n = rng.randint(2, 12)
     script = ops_in
     try:
@@ -221,6 +222,31 @@ def run_history(ctx, cssutils, rng, use_global=False, ops_in=None, raising_in=No
             if default is not None and any(p not in reg.profiles for p in default):
                 default = None
                 reg.defaultProfiles = None
+            # ---- DOM objects that were there before the registry changed: validated again they say what a new object says
+            if use_global:
+                if live is None:
+                    live = []
+                pairs = [BATTERY[(step * 7 + j * 13) % len(BATTERY)] for j in range(6)]
+                for nm, val in pairs:
+                    try:
+                        live.append((nm, val, cssutils.css.Property(nm, val)))
+                    except Exception:
+                        pass
+                for nm, val, obj in live[-40:]:
+                    ctx.count('oracle.live-objects')
+                    try:
+                        cssutils.log.raiseExceptions = False
+                        obj.validate()
+                        old_v = bool(obj.valid)
+                        new_v = bool(cssutils.css.Property(nm, val).valid)
+                    except Exception as e:
+                        ctx.violation('exception', dict(case, failed_at=step), {'tb': core.short_tb(e), 'what': 'validating a long-lived Property'}, site=core.raise_site(e))
+                        return
+                    finally:
+                        cssutils.log.raiseExceptions = raising
+                    if old_v != new_v:
+                        ctx.violation('law.live-object-agrees-with-new-object', dict(case, failed_at=step), {'pair': [nm, val], 'long_lived.validate()': old_v, 'new Property': new_v})
+                        return
             # ---- lock-step comparison with the reconstruction
             ctx.count('oracle.step')
             sig = signature(reg)
